@@ -1,26 +1,35 @@
 (* Props/C14.v — C14: process-based runners keep their worker pool at capacity when workers die;
    heartbeats only on behalf of live workers.  Statements only; every proof is
-   `exact <lemma of Proofs/PoolProofs.v>`.  The loop bodies (`*_loop_ops`) and heartbeat selectors
-   (`*_hb_sel`) are regenerated from the runner sources on every run (gen/Pool_gen.v). *)
+   `exact <lemma of Proofs/PoolProofs.v>`.  The loop bodies (`*_loop_ops`), heartbeat selectors
+   (`*_hb_sel`) and the source of the runner ids of new workers (`*_id_src`) are regenerated from the
+   runner sources on every run (gen/Pool_gen.v, gen/PoolIds_gen.v).  A worker id is a RUNNER ID: the
+   theorems follow ids, not processes (`iterG`/`runG`/`beatsG` = the loop with the id source explicit). *)
 From Coq Require Import List Bool Arith.
 Import ListNotations.
-From PV Require Import Model.Pool gen.Pool_gen Proofs.PoolProofs.
+From PV Require Import Model.Pool gen.Pool_gen gen.PoolIds_gen Proofs.PoolProofs.
+
+(* the spawn code of all three runners tracks a new worker under an id never used before
+   (str(uuid.uuid4()) / new_child_context() without an id); every theorem below is stated for the
+   generated id sources and its proof goes through this fact *)
+Theorem worker_ids_are_fresh : mtr_id_src = IdFresh /\ ppr_id_src = IdFresh /\ pr_id_src = IdFresh.
+Proof. exact ids_fresh_gen. Qed.
+Print Assumptions worker_ids_are_fresh.
 
 (* PersistentProcessRunner: after ANY history of deaths (any subsets, repeatedly, all at once),
    queue changes, iterations and heartbeats, one or more further loop iterations leave no dead
    worker tracked and exactly the configured number of live workers. *)
 Theorem ppr_pool_restored : forall min_slots num_conf cpu evs k,
   let c := ppr_cfg min_slots num_conf cpu in
-  let p := run c ppr_loop_ops (start c) evs in
-  let p' := iterate (S k) (iter c ppr_loop_ops) p in
+  let p := runG ppr_id_src c ppr_loop_ops (start c) evs in
+  let p' := iterate (S k) (iterG ppr_id_src c ppr_loop_ops) p in
   no_dead p' = true /\ nlive p' = cap c /\ ntracked p' = cap c.
-Proof. exact ppr_restored_gen. Qed.
+Proof. exact ppr_restored_genG. Qed.
 Print Assumptions ppr_pool_restored.
 
 (* ... and from any state at all, reachable or not, at least the configured number. *)
 Theorem ppr_pool_restored_any_state : forall c p k,
-  let p' := iterate (S k) (iter c ppr_loop_ops) p in no_dead p' = true /\ cap c <= nlive p'.
-Proof. exact ppr_any_state. Qed.
+  let p' := iterate (S k) (iterG ppr_id_src c ppr_loop_ops) p in no_dead p' = true /\ cap c <= nlive p'.
+Proof. exact ppr_any_stateG. Qed.
 Print Assumptions ppr_pool_restored_any_state.
 
 (* ProcessRunner (one process per invocation): after any history, further iterations leave no
@@ -28,18 +37,18 @@ Print Assumptions ppr_pool_restored_any_state.
    (the pool is full or the queue is empty). *)
 Theorem pr_pool_restored : forall min_slots cpu evs k,
   let c := pr_cfg min_slots cpu in
-  let p := run c pr_loop_ops (start c) evs in
-  let p' := iterate (S k) (iter c pr_loop_ops) p in
+  let p := runG pr_id_src c pr_loop_ops (start c) evs in
+  let p' := iterate (S k) (iterG pr_id_src c pr_loop_ops) p in
   no_dead p' = true /\ nlive p' <= cap c /\ (nlive p' = cap c \/ queue p' = 0).
-Proof. exact pr_restored_gen. Qed.
+Proof. exact pr_restored_genG. Qed.
 Print Assumptions pr_pool_restored.
 
 (* one iteration starts exactly min(free slots after forgetting the dead, waiting invocations) *)
 Theorem pr_picks_up_work : forall c p,
-  let p' := iter c pr_loop_ops p in
+  let p' := iterG pr_id_src c pr_loop_ops p in
   nlive p' + queue p' = nlive p + queue p /\
   nlive p' = nlive p + Nat.min (cap c - nlive p) (queue p).
-Proof. exact pr_pickup. Qed.
+Proof. exact pr_pickupG. Qed.
 Print Assumptions pr_picks_up_work.
 
 (* MultiThreadRunner, full-strength statement: after any history, further iterations leave no
@@ -48,8 +57,8 @@ Print Assumptions pr_picks_up_work.
 Definition mtr_pool_restored : Prop :=
   forall min_p max_p cpu enf evs k,
     let c := mtr_cfg min_p max_p cpu enf in
-    let p := run c mtr_loop_ops (start c) evs in
-    let p' := iterate (S k) (iter c mtr_loop_ops) p in
+    let p := runG mtr_id_src c mtr_loop_ops (start c) evs in
+    let p' := iterate (S k) (iterG mtr_id_src c mtr_loop_ops) p in
     no_dead p' = true /\ mtr_demand c p' <= nlive p'.
 
 (* its refutation witness: min = max = 2; both workers die; two invocations arrive; after ANY
@@ -58,8 +67,8 @@ Definition mtr_pool_restored : Prop :=
 Definition mtr_pool_refuted : Prop :=
   forall enf k,
     let c := mtr_cfg 2 2 4 enf in
-    let p := run c mtr_loop_ops (start c) [EKill [0; 1]; EEnqueue 2] in
-    let p' := iterate k (iter c mtr_loop_ops) p in
+    let p := runG mtr_id_src c mtr_loop_ops (start c) [EKill [0; 1]; EEnqueue 2] in
+    let p' := iterate k (iterG mtr_id_src c mtr_loop_ops) p in
     nlive p' = 0 /\ no_dead p' = false /\ mtr_demand c p' = 2.
 
 (* Decided by the loop body generated from the CURRENT source: if runner_loop_iteration prunes
@@ -67,56 +76,83 @@ Definition mtr_pool_refuted : Prop :=
    #2, proposed_fixes/C14-mtr-loop-prunes-dead.diff).  Any other body breaks this proof. *)
 Theorem mtr_pool_restored_or_refuted :
   if lops_eqb mtr_loop_ops [LPrune; LScaleUp] then mtr_pool_restored else mtr_pool_refuted.
-Proof. exact mtr_verdict. Qed.
+Proof. exact mtr_verdictG. Qed.
 Print Assumptions mtr_pool_restored_or_refuted.
 
 (* the part that holds before and after the repair: while no tracked worker is dead, an
    iteration covers the demand and never loses a worker *)
 Theorem mtr_pool_restored_partial : forall c p, no_dead p = true ->
-  let p' := iter c mtr_loop_ops p in
+  let p' := iterG mtr_id_src c mtr_loop_ops p in
   no_dead p' = true /\ mtr_demand c p' <= nlive p' /\ nlive p <= nlive p'.
-Proof. exact mtr_partial. Qed.
+Proof. exact mtr_partialG. Qed.
 Print Assumptions mtr_pool_restored_partial.
 
-(* dead workers are forgotten: once a worker died, the next iteration untracks its id and it is
-   never tracked again, whatever follows *)
+(* dead workers are forgotten: once a worker died, the next iteration untracks its RUNNER ID and
+   that id is never tracked again — not by the same process, not by a replacement — whatever follows *)
 Theorem dead_forgotten_ppr : forall c p dead id evs, In id dead -> id < next p ->
-  ~ In id (ids (tracked (run c ppr_loop_ops (iter c ppr_loop_ops (kill dead p)) evs))).
-Proof. exact ppr_forgotten. Qed.
+  ~ In id (ids (tracked (runG ppr_id_src c ppr_loop_ops (iterG ppr_id_src c ppr_loop_ops (kill dead p)) evs))).
+Proof. exact ppr_forgottenG. Qed.
 Print Assumptions dead_forgotten_ppr.
 
 Theorem dead_forgotten_pr : forall c p dead id evs, In id dead -> id < next p ->
-  ~ In id (ids (tracked (run c pr_loop_ops (iter c pr_loop_ops (kill dead p)) evs))).
-Proof. exact pr_forgotten. Qed.
+  ~ In id (ids (tracked (runG pr_id_src c pr_loop_ops (iterG pr_id_src c pr_loop_ops (kill dead p)) evs))).
+Proof. exact pr_forgottenG. Qed.
 Print Assumptions dead_forgotten_pr.
 
+(* the same for the multi-thread runner whenever its generated loop prunes before scaling up *)
+Theorem dead_forgotten_mtr :
+  if lops_eqb mtr_loop_ops [LPrune; LScaleUp]
+  then forall c p dead id evs, In id dead -> id < next p ->
+       ~ In id (ids (tracked (runG mtr_id_src c mtr_loop_ops (iterG mtr_id_src c mtr_loop_ops (kill dead p)) evs)))
+  else True.
+Proof. exact mtr_forgotten_if_prunes. Qed.
+Print Assumptions dead_forgotten_mtr.
+
 (* heartbeats: the parent passes on exactly get_active_child_runner_ids(); for each runner every
-   reported id belongs to a tracked worker that is alive; and from the moment a worker dies its id
-   is never reported again, for every continuation (so its invocations become recoverable). *)
+   reported id belongs to a tracked worker that is alive; and from the moment a worker dies its
+   RUNNER ID is never reported again, for every continuation — spawns of replacements included —
+   (so its invocations become recoverable). *)
 Theorem heartbeats_only_for_alive :
   base_reports_active_ids = true /\
   (forall p id, In id (hb mtr_hb_sel p) -> exists w, In w (tracked p) /\ wid w = id /\ walive w = true) /\
   (forall p id, In id (hb ppr_hb_sel p) -> exists w, In w (tracked p) /\ wid w = id /\ walive w = true) /\
   (forall p id, In id (hb pr_hb_sel p) -> exists w, In w (tracked p) /\ wid w = id /\ walive w = true) /\
   (forall c p dead id evs, In id dead -> id < next p ->
-     Forall (fun out => ~ In id out) (beats c mtr_loop_ops mtr_hb_sel (kill dead p) evs)) /\
+     Forall (fun out => ~ In id out) (beatsG mtr_id_src c mtr_loop_ops mtr_hb_sel (kill dead p) evs)) /\
   (forall c p dead id evs, In id dead -> id < next p ->
-     Forall (fun out => ~ In id out) (beats c ppr_loop_ops ppr_hb_sel (kill dead p) evs)) /\
+     Forall (fun out => ~ In id out) (beatsG ppr_id_src c ppr_loop_ops ppr_hb_sel (kill dead p) evs)) /\
   (forall c p dead id evs, In id dead -> id < next p ->
-     Forall (fun out => ~ In id out) (beats c pr_loop_ops pr_hb_sel (kill dead p) evs)).
-Proof. exact heartbeats_gen. Qed.
+     Forall (fun out => ~ In id out) (beatsG pr_id_src c pr_loop_ops pr_hb_sel (kill dead p) evs)).
+Proof. exact heartbeats_genG. Qed.
 Print Assumptions heartbeats_only_for_alive.
 
+(* what the id source is there for: if replacements took over the ids of forgotten workers, the same
+   loop body and the same alive-only selector would report a dead worker's id again (pool of 2,
+   worker 0 dies, one iteration, one report) and track it again *)
+Theorem recycled_worker_ids_refute_heartbeats :
+  ~ (forall c p dead id evs, In id dead -> id < next p ->
+       Forall (fun out => ~ In id out) (beatsG IdRecycled c [LPrune; LSpawnTo] HbAlive (kill dead p) evs)).
+Proof. exact recycled_ids_refuted. Qed.
+Print Assumptions recycled_worker_ids_refute_heartbeats.
+
+Theorem recycled_worker_ids_tracked_again :
+  ~ (forall c p dead id evs, In id dead -> id < next p ->
+       ~ In id (ids (tracked (runG IdRecycled c [LPrune; LSpawnTo] (iterG IdRecycled c [LPrune; LSpawnTo] (kill dead p)) evs)))).
+Proof. exact recycled_ids_tracked_again. Qed.
+Print Assumptions recycled_worker_ids_tracked_again.
+
 (* ids of reachable pools were all issued by the counter (the `id < next p` side condition above
-   is met by every tracked worker of every reachable pool, for any loop body) *)
-Theorem tracked_ids_issued : forall c ops evs id,
-  In id (ids (tracked (run c ops (start c) evs))) -> id < next (run c ops (start c) evs).
-Proof. exact ids_issued_reachable. Qed.
+   is met by every tracked worker of every reachable pool, for any loop body and any id source) *)
+Theorem tracked_ids_issued : forall s c ops evs id,
+  In id (ids (tracked (runG s c ops (start c) evs))) -> id < next (runG s c ops (start c) evs).
+Proof. exact ids_issued_reachableG. Qed.
 Print Assumptions tracked_ids_issued.
 
-(* non-vacuity: a persistent pool of 3, all workers die at once, one iteration: three new workers *)
+(* non-vacuity: a persistent pool of 3, all workers die at once, one iteration: three new workers
+   under three new ids *)
 Example c14_nonvacuous :
   let c := ppr_cfg 1 3 8 in
-  let p := run c ppr_loop_ops (start c) [EKill [0; 1; 2]; EIter] in
-  obs_pool p = [[3; 1]; [4; 1]; [5; 1]] /\ beats c ppr_loop_ops ppr_hb_sel (start c) [EKill [1]; EBeat] = [[0; 2]].
+  let p := runG ppr_id_src c ppr_loop_ops (start c) [EKill [0; 1; 2]; EIter] in
+  obs_pool p = [[3; 1]; [4; 1]; [5; 1]] /\
+  beatsG ppr_id_src c ppr_loop_ops ppr_hb_sel (start c) [EKill [1]; EBeat] = [[0; 2]].
 Proof. vm_compute. split; reflexivity. Qed.
